@@ -37,7 +37,8 @@ TraceAlg ==
 \* rows: <<ket, N.short, N.generic, 2Sz.short, 2Sz.generic, N(bra=ket), 2Sz(bra=ket), actRight diagonal, N.act, 2Sz.act>>
 TraceNSz ==
   /\ IsEvent("NSz")
-  /\ LET e == Tr[l]  up == SetOf(e.up)  down == (0..(e.M - 1)) \ SetOf(e.up) IN
+  /\ LET e == Tr[l]  up == SetOf(e.up)
+         down == IF "down" \in DOMAIN e THEN SetOf(e.down) ELSE (0..(e.M - 1)) \ SetOf(e.up) IN      \* two-list constructor: spectator modes allowed
        /\ "ex" \notin DOMAIN e
        /\ e.offdiag_zero
        /\ \A i \in 1..Len(e.rows) :
